@@ -18,10 +18,10 @@
 enum { K_AGG, K_CHUNK, K_TSSYNC, K_TSCHECK, K_TSALIGN_SYNC, K_TSALIGN_CHECK, K_N };
 static const char *const kname[] = { "aggregate", "chunk_stream", "ts_sync", "ts_check", "ts_align(sync)", "ts_align(check)" };
 
-enum { CL_AGG, CL_CHUNK, CL_TSSYNC, CL_TSCHECK, CL_TSALIGN, CL_CUT_INSIDE_UNIT, CL_EMPTY_BUF, CL_ONEBYTE_BUF, CL_SEGMENTED, CL_GARBAGE, CL_FALSE_SYNC, CL_TAIL_DROPPED, CL_CUTTINGS_DIFFER, CL_RELEASE_MID, CL_AGG_FDSIZE };
+enum { CL_AGG, CL_CHUNK, CL_TSSYNC, CL_TSCHECK, CL_TSALIGN, CL_CUT_INSIDE_UNIT, CL_EMPTY_BUF, CL_ONEBYTE_BUF, CL_SEGMENTED, CL_GARBAGE, CL_FALSE_SYNC, CL_TAIL_DROPPED, CL_CUTTINGS_DIFFER, CL_RELEASE_MID, CL_AGG_FDSIZE, CL_SPLIT_HEAD, CL_CHUNK_RECONF };
 static const char *const class_names[] = { "aggregate", "chunk_stream", "ts_sync", "ts_check", "ts_align", "buffer_boundary_inside_output_unit",
     "empty_buffer", "one_byte_buffer", "segmented_buffer", "garbage_before_or_between_packets", "false_sync_in_payload", "unaligned_tail_dropped",
-    "cuttings_differ", "release_before_end_of_stream", "aggregate_flow_def_announces_block_size", NULL };
+    "cuttings_differ", "release_before_end_of_stream", "aggregate_flow_def_announces_block_size", "buffer_is_head_of_a_split_block", "chunk_stream_set_mtu_before_release", NULL };
 
 #define MAXSTREAM 4096
 #define MAXUNITS (MAXSTREAM + 32)
@@ -40,13 +40,32 @@ struct ctx {
     int P, N;               /* packet size, sync count */
     int mtu, align;         /* agg MTU / chunk mtu + align */
     int fdsize;             /* agg: block size announced in the flow definition (0: none) */
+    int mtu2, align2;       /* chunk_stream: configuration set after the last buffer, before the release (0: unchanged) */
     int ret;
     uint32_t classes;
 };
 #define R(...) do { if (c->render) vp_render(c->rep, __VA_ARGS__); } while (0)
 #define FAIL(key, ...) do { if (!c->ret) c->ret = vp_fail(c->rep, "C14/" key, __VA_ARGS__); } while (0)
 
+static struct uref *mk_buf_plain(struct ctx *c, const uint8_t *p, int len, int nseg);
+
+/* nseg 4: the buffer is the head of a larger segmented block that was split (ubuf_block_split), as depacketisers produce them */
 static struct uref *mk_buf(struct ctx *c, const uint8_t *p, int len, int nseg)
+{
+    if (nseg != 4 || len < 2) return mk_buf_plain(c, p, len, nseg == 4 ? 1 : nseg);
+    uint8_t tmp[MAXSTREAM + 8];
+    memcpy(tmp, p, len);
+    tmp[len] = 0xee; tmp[len + 1] = 0xee; tmp[len + 2] = 0xee;
+    struct uref *uref = mk_buf_plain(c, tmp, len + 3, 3);
+    if (!uref) return NULL;
+    struct ubuf *tail = ubuf_block_split(uref->ubuf, len);
+    if (tail == NULL) { uref_free(uref); return mk_buf_plain(c, p, len, 2); }
+    ubuf_free(tail);
+    c->classes |= 1u << CL_SPLIT_HEAD;
+    return uref;
+}
+
+static struct uref *mk_buf_plain(struct ctx *c, const uint8_t *p, int len, int nseg)
 {
     if (nseg < 1) nseg = 1;
     if (nseg > len) nseg = len ? len : 1;
@@ -82,10 +101,16 @@ static void collect(struct ctx *c, int sid, int rec_from, struct units *u)
 /* ---- references ---- */
 static void ref_chunk(struct ctx *c, const uint8_t *s, int len, struct units *u)
 {
-    int size = (c->mtu / c->align) * c->align, pos = 0;
+    int size = (c->mtu / c->align) * c->align, pos = 0, align = c->align;
     u->n = 0; u->used = 0;
     while (len - pos >= size) { u->off[u->n] = pos; u->len[u->n++] = size; pos += size; }
-    int rem = len - pos, tail = (rem / c->align) * c->align;
+    if (c->mtu2) {
+        /* the configuration was changed after the last buffer, before the release: what is still pending (less than one old
+         * chunk) is flushed with the NEW chunk size and alignment (upipe_chunk_stream.h: set_mtu applies to what follows) */
+        align = c->align2; size = (c->mtu2 / align) * align;
+        while (len - pos >= size) { u->off[u->n] = pos; u->len[u->n++] = size; pos += size; }
+    }
+    int rem = len - pos, tail = (rem / align) * align;
     if (tail > 0) { u->off[u->n] = pos; u->len[u->n++] = tail; pos += tail; }
     if (len - pos > 0) c->classes |= 1u << CL_TAIL_DROPPED;
     memcpy(u->data, s, len); u->used = len;
@@ -173,6 +198,10 @@ static void run_pipe(struct ctx *c, const struct cutting *cut, struct units *out
         upipe_input(p, uref, NULL);
         if (pfx->nrecs - rec_from > 2 * MAXSTREAM / 1 || pfx->overflow) { FAIL("termination/budget", "%s keeps emitting buffers", kname[c->kind]); break; }
     }
+    if (c->kind == K_CHUNK && c->mtu2 && !c->ret) {
+        int e2 = upipe_chunk_stream_set_mtu(p, c->mtu2, c->align2);
+        if (!ubase_check(e2)) FAIL("config", "chunk_stream refused set_mtu(%d, %d) in mid-stream (%d)", c->mtu2, c->align2, e2);
+    }
     upipe_release(p);         /* release = flush */
     collect(c, sid, rec_from, out);
     pfx_sink_drop_kept(pfx, sid);
@@ -202,6 +231,13 @@ static int run(const uint8_t *tp_, size_t len, struct vp_report *rep, unsigned f
     static const int aligns[] = { 1, 2, 4, 3, 7, 16 };
     c->align = aligns[tp_u8(&c->t) % 6];
     if (c->align >= c->mtu) c->align = 1;
+    if (c->kind == K_CHUNK && (cfgb / (K_N * 2)) % 4 == 3) {
+        static const int m2[] = { 10, 5, 3, 50, 7, 2 }, a2[] = { 3, 1, 2, 4, 1, 1 };
+        int q = (cb + cfgb) % 6;
+        c->mtu2 = m2[q]; c->align2 = a2[q];
+        if (c->align2 >= c->mtu2) c->align2 = 1;
+        c->classes |= 1u << CL_CHUNK_RECONF;
+    }
     { unsigned q = (cfgb / (K_N * 2)) % 4; c->fdsize = q == 0 ? 0 : q == 1 ? 1 : q == 2 ? (c->mtu + 1) / 2 : c->mtu; if (c->kind == K_AGG && c->fdsize) c->classes |= 1u << CL_AGG_FDSIZE; }
     h = vp_hash_mix(h, cfgb); h = vp_hash_mix(h, cb); h = vp_hash_mix(h, c->align);
     if (c->kind >= K_TSALIGN_SYNC) { c->P = 188; c->N = 2; }   /* ts_align exposes neither setter: defaults */
@@ -278,7 +314,7 @@ static int run(const uint8_t *tp_, size_t len, struct vp_report *rep, unsigned f
                 }
                 if (l > c->slen - pos) l = c->slen - pos;
                 if (cut->n > 150 && l < 8) l = c->slen - pos;
-                cut->len[cut->n] = l; cut->nseg[cut->n] = 1 + (s >> 6) % 3;
+                cut->len[cut->n] = l; cut->nseg[cut->n] = (s >> 6) == 3 ? 4 : 1 + (s >> 6) % 3;
                 if (l == 0) c->classes |= 1u << CL_EMPTY_BUF;
                 if (l == 1) c->classes |= 1u << CL_ONEBYTE_BUF;
                 if (cut->nseg[cut->n] > 1 && l > 1) c->classes |= 1u << CL_SEGMENTED;
